@@ -11,19 +11,68 @@ Observation: the instances that survive, and per structure `flat|grow|mixed` ove
 namespace KrroodVerif.Drive.C20
 open KrroodVerif KrroodVerif.SG KrroodVerif.Drive.SG
 
+/-- labels 900 … 999 name the long-lived instances created before the loop: they are not shifted -/
+def sh (d l : Nat) : Nat := if 900 ≤ l && l < 1000 then l else l + d
+
 def shiftOp (d : Nat) : Op → Op
-  | .new o c p => .new (o + d) c p
-  | .drop o => .drop (o + d)
-  | .rel f s t => .rel f (s + d) (t + d)
-  | .set f s t => .set f (s + d) (t + d)
-  | .mkq k c dom => .mkq (k + d) c (dom.map (·.map (· + d)))
+  | .new o c p => .new (sh d o) c p
+  | .drop o => .drop (sh d o)
+  | .rel f s t => .rel f (sh d s) (sh d t)
+  | .set f s t => .set f (sh d s) (sh d t)
+  | .mkq k c dom => .mkq (k + d) c (dom.map (·.map (sh d)))
   | .evalq k => .evalq (k + d)
   | .dropq k => .dropq (k + d)
   | op => op
 
-def cleanup (body : List Op) : List Op :=
-  body.filterMap (fun op => match op with | .mkq k _ _ => some (.dropq k) | _ => none) ++
-  body.filterMap (fun op => match op with | .new o _ _ => some (.drop o) | _ => none) ++ [.sweep]
+/-- loop operations: model operations, plus two that only touch the heap of the model (driver level):
+`(attach r o)` = `root.knows.append(o)` — a plain list field, a strong reference the registry knows nothing about;
+`(detach r)` = `root.knows.clear()` -/
+inductive XOp where
+  | m (op : Op)
+  | attach (r o : Nat)
+  | detach (r : Nat)
+
+def shiftX (d : Nat) : XOp → XOp
+  | .m op => .m (shiftOp d op)
+  | .attach r o => .attach (sh d r) (sh d o)
+  | .detach r => .detach (sh d r)
+
+def stepX (q : Quirks) (st : DSt) : XOp → DSt
+  | .m op => stepD q st op
+  | .attach r o =>
+    if st.err || !(st.h.isLive r && st.h.isLive o) then st
+    else { st with h := { st.h with fields := st.h.fields ++ [⟨r, 4, o⟩] } }
+  | .detach r =>
+    if st.err then st
+    else { st with h := { st.h with fields := st.h.fields.filter (fun e => !(e.owner == r && e.fld == 4)) } }
+
+def runX (q : Quirks) (st : DSt) (ops : List XOp) : DSt := ops.foldl (stepX q) st
+
+def parseX (xs : List Sexp) : Option (List XOp) :=
+  let rec go (pos : Nat) : List Sexp → Option (List XOp)
+    | [] => some []
+    | x :: r => do
+      let a ← match x with
+        | .list [.atom "attach", r, o] => do pure [XOp.attach (← r.asNat?) (← o.asNat?)]
+        | .list [.atom "detach", r] => do pure [XOp.detach (← r.asNat?)]
+        -- a query over the long-lived type that reaches the transient instances through `flatten(root.knows)`:
+        -- only the variable over the roots has a domain (and a cached domain)
+        | .list [.atom "queryf", c] => do
+            let c ← c.asNat?
+            pure ([Op.mkq (100000 + pos) c none, .evalq (100000 + pos), .dropq (100000 + pos)].map XOp.m)
+        | .list (.atom "queryfd" :: c :: dom) => do
+            let c ← c.asNat?
+            pure ([Op.mkq (100000 + pos) c (some (← dom.mapM Sexp.asNat?)), .evalq (100000 + pos),
+              .dropq (100000 + pos)].map XOp.m)
+        | _ => do pure ((← parseOp pos x).map XOp.m)
+      let b ← go (pos + 1) r
+      pure (a ++ b)
+  go 0 xs
+
+def cleanup (body : List XOp) : List XOp :=
+  let dq : List Op := body.filterMap (fun op => match op with | XOp.m (Op.mkq k _ _) => some (Op.dropq k) | _ => none)
+  let dr : List Op := body.filterMap (fun op => match op with | XOp.m (Op.new o _ _) => some (Op.drop o) | _ => none)
+  (dq ++ dr ++ [Op.sweep]).map XOp.m
 
 structure Sizes where
   nodes : Nat
@@ -44,24 +93,25 @@ def relStale (st : DSt) : Bool :=
 
 /-- run the loop; returns the final state, the sizes after every iteration, and the instances that were
 registered and died in the LAST clean-up (their `_instance_index` entries cannot have been overwritten) -/
-def runLoop (q : Quirks) (n : Nat) (body : List Op) : DSt × List Sizes × Bool × Bool :=
+def runLoop (q : Quirks) (n : Nat) (pre body : List XOp) : DSt × List Sizes × Bool × Bool :=
   let rec go (i : Nat) (fuel : Nat) (st : DSt) (acc : List Sizes) (diedLast diedEver : Bool) :
       DSt × List Sizes × Bool × Bool :=
     match fuel with
-    | 0 => (st, acc, diedLast, diedEver)
+    | 0 => (runX q st (cleanup pre), acc, diedLast, diedEver)
     | fuel + 1 =>
-      let b := body.map (shiftOp (1000 * i))
-      let st1 := runFrom q st b
+      let b := body.map (shiftX (1000 * i))
+      let st1 := runX q st b
       let before := st1.h.live.map (·.obj)
-      let st2 := runFrom q st1 (cleanup b)
+      let st2 := runX q st1 (cleanup b)
       let died := before.any (fun o => !st2.h.isLive o)
-      let diedBody := (st.h.live.map (·.obj) ++ (b.filterMap fun op => match op with | .new o _ _ => some o | _ => none)).any
+      let diedBody := (st.h.live.map (·.obj) ++
+          (b.filterMap fun op => match op with | .m (.new o _ _) => some o | _ => none)).any
         (fun o => !st2.h.isLive o)
       go (i + 1) fuel st2 (acc ++ [sizes st2]) died (diedEver || diedBody)
-  go 0 n (St.init lifo) [] false false
+  go 0 n (runX q (St.init lifo) pre) [] false false
 
-def obs (q : Quirks) (n : Nat) (body : List Op) : String :=
-  let (st, ss, diedLast, diedEver) := runLoop q n body
+def obs (q : Quirks) (n : Nat) (pre body : List XOp) : String :=
+  let (st, ss, diedLast, diedEver) := runLoop q n pre body
   if st.err then "exc" else
   let surv := sortNat (st.h.live.map (·.obj))
   let inst := if !q.keepDeadIndex then "clean" else if diedLast then "stale" else if diedEver then "?" else "clean"
@@ -74,13 +124,14 @@ def specObs : String := "surv=[] nodes=flat cls=flat edges=flat rel=flat/clean i
 def run (s : Sexp) : String :=
   match s with
   | .list (.atom "loop" :: n :: xs) =>
-    match n.asNat?, parseOps xs with
-    | some n, some body =>
-      let hasQuery := body.any (fun op => match op with | .mkq .. => true | _ => false)
-      let hasNew := body.any (fun op => match op with | .new .. => true | _ => false)
-      let _ := hasNew
+    let (preS, bodyS) := match xs with
+      | .list (.atom "pre" :: p) :: r => (p, r)
+      | _ => ([], xs)
+    match n.asNat?, parseX preS, parseX bodyS with
+    | some n, some pre, some body =>
+      let hasQuery := (pre ++ body).any (fun op => match op with | .m (.mkq ..) => true | _ => false)
       let trig := joinTrig [(hasQuery, "F-C20-1")]
-      s!"model={obs Quirks.asIs n body}\tspec={specObs}\ttrig={trig}"
-    | _, _ => "error=bad-case"
+      s!"model={obs Quirks.asIs n pre body}\tspec={specObs}\ttrig={trig}"
+    | _, _, _ => "error=bad-case"
   | _ => "error=bad-case"
 end KrroodVerif.Drive.C20
